@@ -23,8 +23,8 @@
 //! output: flush → true | false | panic ;  send → (ok | err(ITEM) | err(noitem))[,within-budget|,over-budget],t=T,b=B | panic
 //!   T / B = `queue_full_truncated` / `queue_full_blocked` sampled after the call: truncations come from the PREFILL
 //!   (plain sends) alone — a blocking send never discards anything, so it never moves that counter — and B is 1 iff
-//!   the call's first attempt found the queue full or closed (`b=?` against a live receiver with a full queue, where
-//!   that depends on thread scheduling).
+//!   the call's first attempt found the queue full or closed (`b=?` against a live or late receiver thread with a
+//!   full queue, where that depends on thread scheduling).
 //! Only deterministic combinations are generated: a live receiver gets a timeout of 3 s (so the outcome does not
 //! depend on thread scheduling), a stalled or dropped one gets 0 / 30 ms.
 //!
@@ -273,7 +273,9 @@ fn counters_suffix(c: &Case, out: &Out, before: (usize, usize), after: (usize, u
     if after.0 != before.0 || !(after.1 == before.1 || after.1 == before.1 + 1) {
         fails.push("c09-count");
     }
-    if c.rx == Rx::Live && c.prefill >= c.cap {
+    // against a receiver THREAD (live, or started 30 ms after the call) with a full queue, whether the first attempt
+    // finds the queue still full depends on thread scheduling: the counter is checked by the oracle only
+    if (c.rx == Rx::Live || c.rx == Rx::Late) && c.prefill >= c.cap {
         format!(",t={},b=?", after.0)
     } else {
         format!(",t={},b={}", after.0, after.1)
